@@ -129,14 +129,17 @@ def backLoop (trace : List V) : Nat → Nat → Int → Int → List (Nat × Int
         backLoop trace fuel (d - 1) x' (x' - kPrev) ((d, x, y) :: acc)
     else some (d, x, y, acc)
 
-/-- `backtrack`: snakes indexed by round; entry `none` = nil slice -/
-def backtrack (trace : List V) (M N : Nat) : Option (List (Option (Int × Int))) :=
+/-- `backtrack`: the Go function returns a slice indexed by round with nil holes; `operations` iterates it in
+index order and skips the holes, so the slice is represented by its non-nil entries `(round, x, y)` in index
+order (the recorded list is built newest-first while the round decreases, hence ascending) -/
+def backtrack (trace : List V) (M N : Nat) : Option (List (Nat × Int × Int)) :=
   if trace = [] then none else
   match backLoop trace trace.length (trace.length - 1) M N [] with
   | none => none
-  | some (d, x, y, acc) =>
-    let recorded := if x < 0 ∨ y < 0 then acc else (d, x, y) :: acc
-    some ((List.range trace.length).map fun i => (recorded.find? (·.1 = i)).map fun e => (e.2.1, e.2.2))
+  | some (d, x, y, acc) => some (if x < 0 ∨ y < 0 then acc else (d, x, y) :: acc)
+
+def snakesOf (recorded : List (Nat × Int × Int)) : List (Option (Int × Int)) :=
+  recorded.map fun e => some (e.2.1, e.2.2)
 
 /-! ### operations / ComputeEdits -/
 
@@ -147,7 +150,7 @@ def operations {α} [DecidableEq α] (a b : List α) : Option (List (Op α)) :=
   | some trace =>
     match backtrack trace a.length b.length with
     | none => none
-    | some snakes => some (walk a.length b.length b snakes 0 0)
+    | some recorded => some (walk a.length b.length b (snakesOf recorded) 0 0)
 
 /-- an LSP text edit at line granularity: replace lines `[l1, l2)` (character 0) by `text` -/
 structure Edit where
